@@ -77,11 +77,11 @@ def heapA (r : Except String (Sys × List Res)) : Option (List Segment) :=
   | .ok (s, _) => s.a.tcb.map (·.incoming.segments)
   | .error _ => none
 
-/-- F-C17-4: a segment 100000 beyond `RCV.NXT` (window 65535) is not dropped but parked on the
-    reorder queue, to be consumed when the window reaches it -/
-theorem c17_unacceptable_noop_counterexample_parked :
+/-- F-C17-4 (fixed): a segment 100000 beyond `RCV.NXT` (window 65535) used to be parked on the
+    reorder queue and consumed when the window reached it; now it is acknowledged and dropped -/
+theorem c17_regression_parked :
     heapA (Sys.run {} (handshakeOps ++ [.inject .A (forge .A 16 105001 1001 65535 [7, 8, 9])]))
-      = some [forge .A 16 105001 1001 65535 [7, 8, 9]] := by decide
+      = some [] := by decide
 
 /-- the state of side A after the ops -/
 def stateA (r : Except String (Sys × List Res)) : Option State := (tcbA r).map (·.state)
